@@ -5,7 +5,7 @@
 
 Mutants are listed in tools/mutants.json: {id, props:[...], file, old, new, note}. Each mutant is applied to a fresh
 worktree of /repo HEAD under /tmp (removed afterwards); the check runs with VIROCON_REPO pointing there and
-VERIF_OUT=/tmp/vout_mut so that /verif/evidence is not touched. A patch file (seeded/<id>/patch.diff) can be given
+VERIF_OUT=/tmp/vout_mut_<pid> (one directory per run, so that runs may overlap) so that /verif/evidence is not touched. A patch file (seeded/<id>/patch.diff) can be given
 instead of old/new with {"patch": "seeded/<id>/patch.diff"}.
 """
 import argparse
@@ -73,7 +73,7 @@ def main():
                 if failed:
                     results.append((m["id"], "no-match", {}))
                     continue
-            env = dict(os.environ, VIROCON_REPO=wt, VERIF_OUT="/tmp/vout_mut")
+            env = dict(os.environ, VIROCON_REPO=wt, VERIF_OUT=f"/tmp/vout_mut_{os.getpid()}")
             row = {}
             for prop in m["props"]:
                 t = time.time()
@@ -100,7 +100,7 @@ def main():
         finally:
             sh(["git", "-C", "/repo", "worktree", "remove", "--force", wt])
             shutil.rmtree(wt, ignore_errors=True)
-    shutil.rmtree("/tmp/vout_mut", ignore_errors=True)
+    shutil.rmtree(f"/tmp/vout_mut_{os.getpid()}", ignore_errors=True)
     # persistent record (merged): tools/mutant_results.json
     rp = os.path.join(HERE, "tools", "mutant_results.json")
     try:
